@@ -369,7 +369,19 @@ func init() {
 	e1Check("C03", "E1 safety-mode exploration; oracle on every honest node's complete Broadcast history per height: <=1 proposal / response per view, <=1 commit and pre-commit per height (also inside recovery messages), no view move or ChangeView after own (pre)commit, own message views non-decreasing",
 		func(tier string) []*Job { return append(safetyFamily(tier, []int64{-1, 0}), e2Family(tier, []int64{-1, 0})...) }, needKinds("Commit", "PreCommit", "CV", "RecMsg"))
 	e1Check("C04", "E1 safety-mode exploration; oracle at each Broadcast / view increase, evaluated on the exported Context at that instant: response only for the designated primary's verified complete proposal naming its hash; (pre)commit only with proposal, all transactions and >=M preparations naming it; view v entered only with change views >=v from >=M validators (monitor's own record)",
-		func(tier string) []*Job { return append(safetyFamily(tier, []int64{-1, 0}), e2Family(tier, []int64{-1, 0})...) }, needKinds("PResp", "Commit", "CV"))
+		func(tier string) []*Job {
+			j := append(safetyFamily(tier, []int64{-1, 0}), e2Family(tier, []int64{-1, 0})...)
+			// views above the block height (first blocks of a chain) with N=7 and N=5: the designated primary is
+			// (height - view) mod N with a negative dividend; proposals from EVERY index are offered in each view
+			for _, n := range []int{7, 5} {
+				sp := E2Spec{Views: 3, Proposals: "A", WrongPrim: true, WrongPrimAll: true, Bundles: true, NoTimeout: true, MaxDepth: 6, StateCap: 600_000}
+				sc := e2scen(fmt.Sprintf("E2-low-height-N%d-x2-all-proposers", n), n, 2, -1, sp)
+				sc.StartHeight = 0
+				sc.Missing, sc.BadTx = map[int][]H{}, map[int][]H{}
+				j = append(j, job(sc, 100))
+			}
+			return j
+		}, needKinds("PResp", "Commit", "CV"))
 	e1Check("C07", "E1 safety-mode exploration with anti-MEV on / switching on / off; oracle on per-node callback order: commit only after own pre-commit, successful ProcessPreBlock (<=1 per height) and M current-view pre-commits; block built/signed only after that; below the enabling height no pre-commit, pre-block or ProcessPreBlock",
 		func(tier string) []*Job {
 			j := append(safetyFamily(tier, []int64{0, 5, -1}), e2Family(tier, []int64{0, 6})...)
